@@ -2,6 +2,8 @@ package core
 
 import (
 	"fmt"
+	"os"
+	"runtime"
 	"runtime/debug"
 )
 
@@ -50,6 +52,42 @@ type Task struct {
 	Steps int64
 	// Parent is the task that spawned this one (nil for the tasks of the harness).
 	Parent *Task
+	gid    uint64
+}
+
+var noForeign = os.Getenv("VERIF_NOFOREIGN") != ""
+
+// goid parses the id of the calling goroutine out of its stack header (about
+// a microsecond; used at the few places where the simulated environment is
+// entered, never at injected scheduling points).
+func goid() uint64 {
+	var buf [40]byte
+	n := runtime.Stack(buf[:], false)
+	var id uint64
+	for _, c := range buf[len("goroutine "):n] {
+		if c < '0' || c > '9' {
+			break
+		}
+		id = id*10 + uint64(c-'0')
+	}
+	return id
+}
+
+// Foreign reports whether the caller is a goroutine that is not the running
+// task: a goroutine the code under test started on its own, in a build where
+// go statements are not rewritten. Such a goroutine must not enter the
+// scheduler (it does not hold the baton).
+func (s *Sched) Foreign() bool {
+	t := s.cur
+	if t == nil || noForeign {
+		return false
+	}
+	// fast path: no goroutine exists beyond those that were there when the
+	// run began and the live tasks
+	if runtime.NumGoroutine() <= s.baseG+s.liveG {
+		return false
+	}
+	return t.gid != goid()
 }
 
 type killSentinel struct{}
@@ -78,10 +116,12 @@ type Sched struct {
 	last       int
 	// Spawned counts the tasks created by Spawn (goroutines the code under test started).
 	Spawned int
+	baseG   int // goroutines alive when the scheduler was created
+	liveG   int // task goroutines started and not yet finished
 }
 
 func NewSched(p Policy) *Sched {
-	return &Sched{back: make(chan struct{}), policy: p, MaxSteps: 5_000_000, digest: 0xcbf29ce484222325, last: -1}
+	return &Sched{back: make(chan struct{}), policy: p, MaxSteps: 5_000_000, digest: 0xcbf29ce484222325, last: -1, baseG: runtime.NumGoroutine()}
 }
 
 // Go registers a task; it starts when the scheduler first picks it.
@@ -177,7 +217,9 @@ func (s *Sched) handback(t *Task) {
 
 func (s *Sched) start(t *Task) {
 	t.started = true
+	s.liveG++
 	go func() {
+		t.gid = goid()
 		<-t.resume
 		defer func() {
 			if r := recover(); r != nil {
@@ -187,6 +229,7 @@ func (s *Sched) start(t *Task) {
 				}
 			}
 			t.state = tsDone
+			s.liveG--
 			if t.Parent != nil {
 				t.InOp = 0
 			}
